@@ -15,7 +15,8 @@ from mc import explorer
 
 NEEDS_BRIDGEPOINT = False
 ASSUMPTIONS = [
-    'element universe of 3 (quick) / 5 (thorough) hashable values; operands range over every ordered subset',
+    'element universe of 3 (quick) / 5 (thorough) hashable values; operands range over every ordered subset; the search is run for '
+    'a seed-chosen palette and for a palette of falsy values including None',
     'order is claimed for add, |=, construction, removals (survivors keep their order); & | - ^ results are compared as sets',
     'equality with unordered sets, with lists holding duplicates and with non-iterables is outside the statement',
     'in-place operands also include lists/generators yielding an element more than once (a mathematical operand holds it once) and '
@@ -29,6 +30,8 @@ PALETTES = [
     [(0,), (1,), (2,), (3,), (4,)],
     [-1, 10 ** 20, 'x', 2.5, ('t', 1)],
 ]
+# elements that are falsy or None (None is also what an empty query set answers for first / last): always explored, whatever the seed
+FALSY_PALETTE = [None, 0, '', (), 0.5]
 OUTSIDE = 'zz-not-a-member'
 
 
@@ -47,9 +50,9 @@ class World(object):
 class SetModel(explorer.Model):
     limit_s = 5.0
 
-    def __init__(self, clsname, usize, seed):
+    def __init__(self, clsname, usize, seed, palette=None):
         self.clsname = clsname
-        self.universe = PALETTES[seed % len(PALETTES)][:usize]
+        self.universe = (palette or PALETTES[seed % len(PALETTES)])[:usize]
         self.idx = list(range(usize))
         self.operands = ordered_subsets(self.universe)
 
@@ -485,7 +488,8 @@ def unit_test(model, hist, op):
 
 def models(ctx):
     usize = 3 if ctx.quick else 5
-    ms = [SetModel('OrderedSet', usize, ctx.seed), SetModel('QuerySet', usize, ctx.seed)]
+    ms = [SetModel('OrderedSet', usize, ctx.seed), SetModel('QuerySet', usize, ctx.seed),
+          SetModel('OrderedSet', usize, ctx.seed, FALSY_PALETTE), SetModel('QuerySet', usize, ctx.seed, FALSY_PALETTE)]
     for m in ms:
         m.limit_s = 5.0 if ctx.quick else 40.0
     return ms
@@ -494,9 +498,9 @@ def models(ctx):
 def run(ctx):
     total_states = 0
     for m in models(ctx):
-        res = explorer.bfs(ctx, m, chunk=2, label=m.clsname)
+        res = explorer.bfs(ctx, m, chunk=2, label=m.clsname + ('' if m.universe[0] is not None else '/falsy'))
         total_states += res['states']
-        ctx.notes[m.clsname + '_closed'] = res['closed']
+        ctx.notes[m.clsname + ('' if m.universe[0] is not None else '_falsy') + '_closed'] = res['closed']
         if res['seen']:
             ctx.sample(dict(cls=m.clsname, state_history=sorted(res['seen'].values(), key=lambda h: (len(h), repr(h)))[-1]))
     n_expected = len(ordered_subsets(list(range(3 if ctx.quick else 5))))
@@ -507,7 +511,7 @@ def run(ctx):
 
 def replay(ctx, case):
     m = SetModel(case['cls'], len(case['universe']), 0)
-    for pal in PALETTES:
+    for pal in PALETTES + [FALSY_PALETTE]:
         if list(map(repr, pal[:len(case['universe'])])) == case['universe']:
             m.universe = pal[:len(case['universe'])]
     explorer.replay_case(ctx, m, case['hist'], case.get('op'))
